@@ -317,6 +317,21 @@ def handle (d : DState) (line : String) : DState × String :=
         let rs := BB.Pages.releases p
         (d, s!"can={p.canRelease} " ++ ",".intercalate (rs.map (fun r => toString r.addr ++ ":" ++ toString r.len ++ ":" ++ toString r.afterRow)))
       | _, _, _, _, _, _ => bad
+    | "SK" =>
+      -- labels / centres of the current estimator, predictions and distances for query rows
+      match d.est, (kv args "F").bind String.toNat? with
+      | some e, some F =>
+        match parseRows F (kvD args "rows" "-") with
+        | none => bad
+        | some X =>
+          let centers := skCenters e
+          let lab := match skLabels e with
+            | .ok a => showNats "." a
+            | .error x => "err:" ++ x.name
+          let pred := showNats "." (skPredict centers X)
+          let tr := ";".intercalate ((skTransform centers X).map showRats)
+          (d, "labels=[" ++ lab ++ "] centers=[" ++ ",".intercalate (centers.map rowToHex) ++ "] predict=[" ++ pred ++ "] transform=[" ++ tr ++ "]")
+      | _, _ => bad
     | "MINSAFE" =>
       match (kv args "n").bind String.toNat? with
       | some n => (d, match minSafe? n with | some w => w.name | none => "err:ValueError")
